@@ -494,6 +494,22 @@ func (g *c18Gen) generate(thorough bool, n int) {
 		[]byte(`{"id":"gapbq","indexSchema":{"v":{"type":"vectorFlat","vectorFlat":{"vectorSize":4,"distanceMetric":"euclidean","quantizer":{"type":"binary","binary":{"threshold":0.5,"triggerThreshold":-5,"distanceMetric":"hamming"}}}}}}`)))
 	g.add(spec("gap:bq-trigger-without-threshold", "mutated", "POST", "/v2/collections", "alice", ctJ,
 		[]byte(`{"id":"gapbq","indexSchema":{"v":{"type":"vectorFlat","vectorFlat":{"vectorSize":4,"distanceMetric":"euclidean","quantizer":{"type":"binary","binary":{"triggerThreshold":50001,"distanceMetric":"hamming"}}}}}}`)))
+	// a collection whose property "vector" is a FLAT index of dimension 3 and which also carries a vamana parameter
+	// block (dimension 5) that nothing validates: the v1 API must not take that block for the index
+	strayCreate := spec("setup", "valid", "POST", "/v2/collections", "alice", ctJ,
+		[]byte(`{"id":"stray","indexSchema":{"vector":{"type":"vectorFlat","vectorFlat":{"vectorSize":3,"distanceMetric":"euclidean"},"vectorVamana":{"vectorSize":5,"distanceMetric":"euclidean","searchSize":75,"degreeBound":64,"alpha":1.2}}}}`))
+	strayIns := spec("stray-block:v1-insert", "valid", "POST", "/v1/collections/stray/points", "alice", ctJ, []byte(`{"points":[{"vector":[1,2,3,4,5]}]}`))
+	strayIns.Setup = []xspec{strayCreate}
+	g.add(strayIns)
+	strayIns3 := spec("stray-block:v1-insert-dim-of-flat", "valid", "POST", "/v1/collections/stray/points", "alice", ctJ, []byte(`{"points":[{"vector":[1,2,3]}]}`))
+	strayIns3.Setup = []xspec{strayCreate}
+	g.add(strayIns3)
+	straySetup2 := strayIns
+	straySetup2.Tag, straySetup2.Setup = "setup", nil
+	straySearch := spec("stray-block:v2-search-after-v1-insert", "valid", "POST", "/v2/collections/stray/points/search", "alice", ctJ,
+		[]byte(`{"query":{"property":"vector","vectorFlat":{"vector":[1,2,3],"operator":"near","limit":3}},"limit":3}`))
+	straySearch.Setup = []xspec{strayCreate, straySetup2}
+	g.add(straySearch)
 	// text queries whose value is valid (non-empty) but leaves no term after analysis (stop words, punctuation, blanks):
 	// alone, as the pre-filter of a vector query, and inside a composite
 	for _, v := range []string{"the", "of the and", "?!", "...", " ", "a", "THE"} {
